@@ -370,6 +370,8 @@ def entry (v : Variant) (e : Env) (ring : Bytes) (pos len mask : Nat) (cmds : Li
       logMetaBlock { e with ctxSome := true, btl := Split.nop, btc := Split.nop, btd := Split.nop } i0 i1 cmds distCache nbe
     | .full => logMetaBlock { e with ctxSome := true } i0 i1 cmds distCache nbe
     | .unc =>
+      -- `BrotliStoreUncompressedMetaBlockHeader` runs first: `BrotliEncodeMlen` asserts `0 < length ≤ 2^24`
+      if len = 0 ∨ len > 2 ^ 24 then none else
       logMetaBlock { e with ctxSome := false, btl := Split.nop, btc := Split.nop, btd := Split.nop } i0 i1
         [⟨len % 2 ^ 32, 0, 0, 0, 0⟩] [0, 0, 0, 0] nbe
 
